@@ -1,5 +1,6 @@
 import CV.Drv.Line
 import CV.Drv.Irc
+import CV.Drv.Core
 /-
 cvdriver <model> : reads op lines on stdin, answers one line per op on stdout.
 Imports only CV.Model.* / CV.Drv.* (no Mathlib) so that it links as an executable.
@@ -7,7 +8,7 @@ Imports only CV.Model.* / CV.Drv.* (no Mathlib) so that it links as an executabl
 open CV.Drv
 
 def machines : List (String × Machine) :=
-  [ ("line", lineMachine), ("irc", ircMachine) ]
+  [ ("line", lineMachine), ("irc", ircMachine), ("core", coreMachine) ]
 
 def main (args : List String) : IO UInt32 := do
   match args with
